@@ -13,7 +13,7 @@ PROFILES = {
     "C02": profile(modes=["r+", "r+", "r+", "w+"],
                    mix={"remove": 6, "drop": 1.5, "remove_all": 0.6,
                         "update": 1, "read": 3, "getter": 1}),
-    "C03": profile(modes=["r+", "r+", "r+", "w+"],
+    "C03": profile(modes=["r+", "r+", "r+", "w+"], update_time_rich=True,
                    mix={"update": 6, "update_all": 2, "remove": 1,
                         "read": 3, "getter": 1}),
     "C06": profile(mix={"read": 3, "getter": 2, "lifecycle": 1.5,
@@ -52,7 +52,7 @@ PROFILES = {
                         "lifecycle": 1.5, "clock": 0.5},
                    reads_after=(0, 1)),
     "C15": profile(storages=["csv"], modes=["r", "r+", "a", "a+", "w",
-                                            "w+", "r+", "r"],
+                                            "w+", "r+", "r"], external=0.4,
                    mix={"read": 5, "getter": 4, "cursor": 2,
                         "lifecycle": 2.5, "invalid": 1.5, "illtyped": 0.5,
                         "remove": 3, "update": 3}, reads_after=(0, 2)),
@@ -74,6 +74,7 @@ PROFILES = {
                         "drop": 0.7, "read": 1, "getter": 0.5,
                         "lifecycle": 0.3, "cursor": 1}, reads_after=(0, 1)),
     "C13": profile(storages=["csv"], len=(3, 14), max_points=10,
+                   modes=["r+", "r+", "r+", "w+", "a+"],
                    cfg_override={"flush_on_insert": True},
                    mix={"update": 3, "remove": 3, "remove_all": 0.5,
                         "drop": 0.7, "read": 2, "getter": 1,
